@@ -1,6 +1,6 @@
 (* C11 property theorems. Nothing but statements closed by `exact lemma`, Print Assumptions, and non-vacuity Examples. *)
 From Coq Require Import ZArith NArith List Bool.
-From OG Require Import C11.Model C11.Proofs C11.ProofsRange.
+From OG Require Import C11.Model C11.Proofs C11.ProofsRange C11.ProofsBuilders.
 Import ListNotations.
 Open Scope Z_scope.
 
@@ -243,6 +243,40 @@ Proof.
 Qed.
 Print Assumptions C11_hint_kind_prune_sound.
 
+(* ------------------------------------------------------------------ the other shard-key builders of the write path *)
+(* Column-store rows (UnmarshalShardKeyByField), rows with a column index (UnmarshalShardKeyByTagOp), stream results
+   (UnmarshalShardKeyByDimOrTag): for a non-empty key each of them selects exactly the key's columns, in key order, each from
+   the row's tags or fields - whatever the order of the row's tags. *)
+Theorem builders_select_the_key_columns : forall b sk r ps, sk <> [] -> build_key b sk r = Some ps ->
+  map fst ps = sk /\ forall x, In x ps -> In x (x_tags r) \/ In x (x_fields r).
+Proof. exact build_key_spec. Qed.
+
+(* WRITE-SIDE KEY = READ-SIDE KEY for any such selection ps: from a tag set ts of the condition that names schema tags only and
+   that the row satisfies, the read side builds a PREFIX of ps, and ps itself when every key column is bound; key columns that
+   are not tags of the row are not tags of the schema (so the condition cannot bind them and no shard is selected by hash). *)
+Theorem builder_key_agrees : forall (tagkeys sk : list str) (tags ps ts : tagset),
+  NoDup (map fst tags) -> map fst ps = sk ->
+  (forall x, In x ps -> In x tags \/ mem_str (fst x) tagkeys = false) ->
+  (forall x, In x ts -> mem_str (fst x) tagkeys = true) ->
+  (forall k v, In (k, v) ts -> tag_val tags k = v) ->
+  exists m, fst (sel_keys sk (sort_tags ts)) = firstn m ps /\
+            (snd (sel_keys sk (sort_tags ts)) = true -> fst (sel_keys sk (sort_tags ts)) = ps).
+Proof. exact builder_key_agrees_proof. Qed.
+Print Assumptions builder_key_agrees.
+
+(* ... hence pruning (repaired reading) consults the shard of every row routed through one of these builders that satisfies the
+   query: hash and range sharding, any key, any row whose fields are not schema tags. *)
+Theorem C11_builders_prune_sound : forall (hash : str -> N) b c g cond r p s,
+  wf_group c g -> wf_point p -> p_tags p = x_tags r ->
+  (forall x, In x (x_fields r) -> mem_str (fst x) (c_tagkeys c) = false) ->
+  route_in_x hash b c g r = Some s -> eval_cond c cond p = true ->
+  In s (target_group hash repaired c g cond).
+Proof.
+  intros hash b c g cond r p s.
+  exact (builders_prune_sound_proof hash repaired b c g cond r p s eq_refl eq_refl (or_introl eq_refl)).
+Qed.
+Print Assumptions C11_builders_prune_sound.
+
 (* ------------------------------------------------------------------ partitions going offline between write and read *)
 (* The alive shard list (GetAliveShards) is evaluated when a row is written (list aw) and again when a query runs (list ar).
    1. Hash sharding consults only shards that are alive when the query runs: if the owner of a row is offline then, it is
@@ -340,4 +374,23 @@ Proof.
   assert (Hb : bounds_sorted [] [s_k 50; s_k 53]) by (simpl; repeat split; vm_compute; reflexivity).
   split; [exact Hb|]. split; [reflexivity|]. split; [exact (range_chain_resharded ex_rgroup _ Hb eq_refl)|].
   vm_compute. repeat split.
+Qed.
+
+(* a stream result row with its tags in dimension order (host before dc), key (dc, host): the builder selects dc then host, the
+   route is the one of the sorted row, and the query dc='1' AND host='a' consults exactly that shard *)
+Definition ex_xrow : xrow :=
+  {| x_tags := [(s_host, [97%N]); (s_dc, [49%N])]; x_fields := []; x_cols := [(s_host, 0%nat); (s_dc, 1%nat)] |}.
+Definition ex_cfg_dh2 : cfg :=
+  {| c_mst := s_cpu; c_tagkeys := [s_dc; s_host]; c_sk := [s_dc; s_host]; c_typ := Hash; c_dur := 3600000000000; c_groups := [ex_group]; c_mstidx := None |}.
+Example ex_builder_unsorted_row :
+  build_key (BDim [s_host; s_dc]) (c_sk ex_cfg_dh2) ex_xrow = Some [(s_dc, [49%N]); (s_host, [97%N])] /\
+  NoDup (map fst (x_tags ex_xrow)) /\
+  route_in_x xxh64 (BDim [s_host; s_dc]) ex_cfg_dh2 ex_group ex_xrow =
+    route_in xxh64 ex_cfg_dh2 ex_group {| p_tags := [(s_dc, [49%N]); (s_host, [97%N])]; p_time := 0; p_leaf := fun _ => false |} /\
+  option_map (fun s => [s_id s]) (route_in_x xxh64 (BDim [s_host; s_dc]) ex_cfg_dh2 ex_group ex_xrow) =
+    Some (map s_id (target_group xxh64 repaired ex_cfg_dh2 ex_group (Some (EAnd (EEq 0%N s_dc [49%N]) (EEq 1%N s_host [97%N]))))).
+Proof.
+  split; [vm_compute; reflexivity|]. split.
+  - simpl. constructor; [intros [H|[]]; discriminate|constructor; [intros []|constructor]].
+  - split; vm_compute; reflexivity.
 Qed.
